@@ -350,10 +350,8 @@ def _ns3d_cfgs():
                         if flt is None:
                             quick = solver == "greens_function_convolution" or w == 2
                         else:
+                            cfg["classes"] = "few"  # filtered steps: middle class + four boundary classes
                             quick = flt[1] <= 2 and w == 2 and f and s and solver == "greens_function_convolution"
-                            if quick:
-                                out.append(dict(cfg, classes="few"))
-                                quick = False
                         if not quick:
                             cfg["_tier"] = "thorough"
                         out.append(cfg)
